@@ -2838,22 +2838,28 @@ def task_text_parse_wiring(scratch, tier, seed, logdir):
         f = mir.find_fn(fns, r"^parse_scs$")
         ps = [p for p in mir.Exec(f, [], max_paths=200).run({"_1": V("s", "U"), "_2": V("shape", "U")}) if p.end == "return"]
         ob.d["queries"] += len(ps)
-        r = show(ps[0].ret) if len(ps) == 1 else ""
-        want = (r"std::result::Result::<Vec<f64>, std::io::Error>::and_then::<spectrum::Spectrum<Counts>, \{closure@[^}]*\}>\("
-                r"std::result::Result::<Vec<f64>, ParseFloatError>::map_err::<std::io::Error, \{closure@[^}]*\}>\("
-                r"<std::iter::Map<SplitAsciiWhitespace<'_>, .*?> as Iterator>::collect::<std::result::Result<Vec<f64>, ParseFloatError>>\("
-                r"<SplitAsciiWhitespace<'_> as Iterator>::map::<.*?>\(core::str::<impl str>::split_ascii_whitespace\(s\), <f64 as FromStr>::from_str\)\), "
-                r"ZeroSized: \{closure@[^}]*\}\), closure\{closure@[^}]*\}\{shape\}\(shape\)\)")
-        if len(ps) != 1 or ps[0].state.pc or not re.fullmatch(want, r):
-            dev.append("parse_scs is not split_ascii_whitespace -> parse every token -> collect -> Scs::new(all values, shape): " + r[:200])
-        cl = [c for c in fns if re.search(r"^parse_scs::\{closure#1\}$", mir.norm_name(c.name))]
-        if len(cl) == 1:
-            cps = [p for p in mir.Exec(cl[0], [], max_paths=50).run({"_1": V("cl", "U"), "_2": V("values", "U")}) if p.end == "return"]
-            rr = [show(p.ret) for p in cps]
-            if len(rr) != 1 or not re.fullmatch(r"std::result::Result::<spectrum::Spectrum<Counts>, array::ShapeError>::map_err::<std::io::Error, \{closure@[^}]*\}>\(spectrum::Spectrum::<Counts>::new::<Vec<f64>, Shape>\(values, field\(cl, 0\)\), ZeroSized: \{closure@[^}]*\}\)", rr[0]):
+        CL = r"\{closure@[^}]*\}"
+        parsed = (rf"std::result::Result::<Vec<f64>, ParseFloatError>::map_err::<std::io::Error, {CL}>\("
+                  r"<std::iter::Map<SplitAsciiWhitespace<'_>, .*?> as Iterator>::collect::<std::result::Result<Vec<f64>, ParseFloatError>>\("
+                  r"<SplitAsciiWhitespace<'_> as Iterator>::map::<.*?>\(core::str::<impl str>::split_ascii_whitespace\(s\), <f64 as FromStr>::from_str\)\), "
+                  rf"ZeroSized: {CL}\)")
+        new_of = lambda values, shp: rf"std::result::Result::<spectrum::Spectrum<Counts>, array::ShapeError>::map_err::<std::io::Error, {CL}>\(spectrum::Spectrum::<Counts>::new::<Vec<f64>, Shape>\({values}, {shp}\), ZeroSized: {CL}\)"
+        rets = [show(p.ret) for p in ps]
+        # form 1: parsed.and_then(|vec| Scs::new(vec, shape).map_err(..))
+        form1 = (len(ps) == 1 and not ps[0].state.pc and
+                 re.fullmatch(rf"std::result::Result::<Vec<f64>, std::io::Error>::and_then::<spectrum::Spectrum<Counts>, {CL}>\({parsed}, closure{CL}\{{shape\}}\(shape\)\)", rets[0]))
+        if form1:
+            cl = [c for c in fns if re.search(r"^parse_scs::\{closure#1\}$", mir.norm_name(c.name))]
+            rr = [show(p.ret) for c in cl for p in mir.Exec(c, [], max_paths=50).run({"_1": V("cl", "U"), "_2": V("values", "U")}) if p.end == "return"]
+            if len(rr) != 1 or not re.fullmatch(new_of("values", r"field\(cl, 0\)"), rr[0]):
                 dev.append("the parsed values and the declared shape do not go to Scs::new unchanged: " + "; ".join(rr)[:200])
-        elif not dev:
-            dev.append(f"{len(cl)} shape closures in parse_scs")
+        else:
+            # form 2: let values = parsed?; Scs::new(values, shape).map_err(..)
+            br = rf"<std::result::Result<Vec<f64>, std::io::Error> as Try>::branch\({parsed}\)"
+            ok = [r for r in rets if re.fullmatch(new_of(rf"field\(as_Continue\({br}\), 0\)", "shape"), r)]
+            err = [r for r in rets if re.fullmatch(rf"<std::result::Result<spectrum::Spectrum<Counts>, std::io::Error> as FromResidual<.*?>>::from_residual\(field\(as_Break\({br}\), 0\)\)", r)]
+            if not (len(rets) == 2 and len(ok) == 1 and len(err) == 1):
+                dev.append("parse_scs is not split_ascii_whitespace -> parse every token -> collect -> Scs::new(all values, shape): " + " ;; ".join(rets)[:300])
         ob.d["nonvacuous"] = True
         if dev:
             ob.fail("violation", " | ".join(dev))
